@@ -3,7 +3,7 @@
 (* edits, r is q after e2 more edits - so that the equality, subpath and transitivity laws meet related long      *)
 (* paths, not only unrelated ones.  Edit mode 0: spelling variants (flip the case of a letter, use the other      *)
 (* separator, double a separator, add a trailing separator); mode 1: replace / insert / delete any character.     *)
-(* One JSON line [p, q, r] per behaviour.                                                                         *)
+(* One JSON line [p, q, r, '/' + q, '\' + r] per behaviour.                                                        *)
 EXTENDS Naturals, Sequences, Json, TLC
 CONSTANTS MinLen, MaxLen, MaxEdits
 VARIABLES p, q, r, np, e1, e2, m1, m2, phase, pos
@@ -39,5 +39,6 @@ LongNext ==
   \/ phase = 2 /\ e2 > 0 /\ EditStep(r, r', m2) /\ e2' = (IF Done(m2) THEN e2 - 1 ELSE e2) /\ UNCHANGED <<p, q, np, e1, m1, m2, phase>>
   \/ phase = 2 /\ e2 = 0 /\ phase' = 3 /\ UNCHANGED <<p, q, r, np, e1, e2, m1, m2, pos>>
 LongSpec == LongInit /\ [][LongNext]_lvars
-Emit == phase = 3 => PrintT("@@" \o ToJson(<<p, q, r>>))
+\* ... and two long folders AS SPELLED (absolute: a separator in front of q and of r, whose edits in mode 0 are spelling variants)
+Emit == phase = 3 => PrintT("@@" \o ToJson(<<p, q, r, <<1>> \o q, <<2>> \o r>>))
 =============================================================================
